@@ -85,10 +85,13 @@ def main():
     ap.add_argument('--seeded', action='store_true')
     ap.add_argument('--suite', action='store_true', help='also run the repository suite on each mutant')
     ap.add_argument('--jobs', type=int, default=4)
+    ap.add_argument('--no-regress', action='store_true', help='skip the saved regression cases: measure the generators alone')
     a = ap.parse_args()
     props = set(a.props.split(',')) if a.props else None
     ids = set(a.ids.split(',')) if a.ids else None
     nproc = max(2, 16 // a.jobs)
+    if a.no_regress:
+        os.environ['VERIF_SKIP_REGRESS'] = '1'
     jobs = []
     with cf.ThreadPoolExecutor(a.jobs) as ex:
         if not a.revert_fixes and not a.seeded or ids:
